@@ -78,3 +78,10 @@ claimed["C03"] = (
     "k=3 restricts each property to one rule kind; disabled+default-only and absent by-value sub-objects of struct-mapped parents are unspecified; trusts the reference interpreter",
     "DESIGN.md §3 C03, App. A",
 )
+claimed["C17"] = (
+    "exploration",
+    "single-fault injection into valid inputs with the path known by construction; runtime check of errors.As(*ConstraintError).Path",
+    "Generated nested schemas (map-based objects, lists, maps, one-of, references, scopes) with an input that both the reference and the SDK accept; every leaf, collection, required property and presence rule on the way is corrupted one at a time (wrong type, below min, above max, pattern miss, not in enum, undeclared key, missing required property, a violated required_if / required_if_not / conflicts rule with exactly one violating property). The error of Unserialize and of Validate (on native-form trees) must be a ConstraintError whose path, without one-of markers and decoration, equals the injector's path; undeclared keys must be named in the message. The evidence holds the (corruption kind x innermost container) matrix.",
+    "struct-mapped objects are not injected into; corrupted inputs that the reference does not classify as must-reject are skipped",
+    "DESIGN.md §3 C17",
+)
